@@ -490,6 +490,290 @@ def destination_suite(ctx):
         ctx.samples.append(dict(site="MOVE Destination", case=repr(cases[0][0]), outcome=cases[0][1]))
 
 
+# ------------------------------------------------------------------------------- 3. monitors (the property on the real server)
+KNOWN_AMBIGUOUS = "C18: reverse proxy strips the script name and a top-level collection is spelled like the script name"
+
+
+class Fail(Exception):
+    def __init__(self, step, **kw):
+        Exception.__init__(self, step)
+        self.step, self.info = step, kw
+
+
+def item_text(kind, uid):
+    from vlib.impl import event, contact
+    return event(uid) if kind == "C" else contact(uid)
+
+
+def run_scenario(sc):
+    """One deployment, one user, one collection with hostile names: returns (list of Fail, stats, last requests).
+    The parts (item hrefs, collection hrefs, MOVE, Location) are checked independently."""
+    from vlib.impl import Server
+    mode, prefix, user, col, kind = sc["mode"], sc["prefix"], sc["user"], sc["col"], sc["kind"]
+    conf = {"auth": {"type": "none"}, "web": {"type": "internal"}}
+    if mode == "config-full-xff":
+        conf["server"] = {"script_name": prefix}
+    host_hdr = X.HOSTNAME
+    stats = dict(hrefs=0, requests=0)
+    with Server(conf) as srv:
+        fr = X.Front(srv, mode, prefix, login=user + ":pw")
+        root = os.path.join(srv.folder, "collection-root")
+        try:
+            cpath = "/%s/%s/" % (user, col)
+            curl = fr.client_url(cpath)
+            if kind == "C":
+                st = fr.send("MKCALENDAR", curl)[0]
+            else:
+                st = fr.send("MKCOL", curl, data=('<?xml version="1.0"?><D:mkcol xmlns:D="DAV:" xmlns:CR="urn:ietf:params:xml:ns:carddav">'
+                                                  '<D:set><D:prop><D:resourcetype><D:collection/><CR:addressbook/></D:resourcetype>'
+                                                  '</D:prop></D:set></D:mkcol>'))[0]
+            if st != 201:
+                raise Fail("create collection by its encoded URL", url=curl, status=st)
+            if not os.path.isdir(os.path.join(root, user, col)):
+                raise Fail("collection created under another name", url=curl, listing=sorted(os.listdir(root)))
+            uids = {}
+            for i, name in enumerate(sc["names"]):
+                url = fr.client_url(cpath + name)
+                st = fr.send("PUT", url, data=item_text(kind, "uid%d" % i),
+                             headers={"Content-Type": "text/calendar" if kind == "C" else "text/vcard"})[0]
+                if st != 201:
+                    raise Fail("PUT by encoded URL", url=url, name=name, status=st)
+                if not os.path.isfile(os.path.join(root, user, col, name)):
+                    raise Fail("PUT stored the item under another name", url=url, name=name,
+                               listing=sorted(x for x in os.listdir(os.path.join(root, user, col)) if not x.startswith(".Radicale")))
+                uids[name] = "uid%d" % i
+            # ---- every href the server hands out
+            listings = []
+            for what, method, url, body, hdrs in [
+                    ("PROPFIND depth 1", "PROPFIND", curl, X.PROPFIND_ALL, {"Depth": "1"}),
+                    ("PROPFIND principal", "PROPFIND", fr.client_url("/%s/" % user), X.PROPFIND_ALL, {"Depth": "1"}),
+                    ("REPORT sync-collection", "REPORT", curl, X.SYNC_BODY, {}),
+                    ("REPORT query", "REPORT", curl, X.QUERY_BODY[kind], {})]:
+                st, h, b = fr.send(method, url, headers=hdrs, data=body)
+                if st != 207:
+                    raise Fail(what, url=url, status=st)
+                listings.append((what, b))
+            item_hrefs = {}
+            coll_hrefs = set()
+            for what, b in listings:
+                for owner, href in X.all_hrefs(b):
+                    stats["hrefs"] += 1
+                    if not X.is_wf_quoted(href):
+                        raise Fail("href is not a percent-encoded URL path", where=what, owner=owner, href=href)
+                    if owner != "response":
+                        coll_hrefs.add(href)
+                for href, etag, is_coll in X.etags_of(b):
+                    if is_coll or etag is None:
+                        coll_hrefs.add(href)
+                    else:
+                        if item_hrefs.setdefault(href, etag) != etag:
+                            raise Fail("two ETags for one href", href=href)
+            if len(item_hrefs) != len(sc["names"]):
+                raise Fail("listing does not show one href per stored item", hrefs=sorted(item_hrefs), names=sc["names"])
+            etag_on_disk = {}
+            etag_on_disk = {}
+            fails = []
+            try:
+                # ---- send every item href back: request line, multiget
+                reached = set()
+                for href, etag in sorted(item_hrefs.items()):
+                    st, h, b = fr.send("GET", href)
+                    if st != 200 or h.get("ETag") != etag:
+                        raise Fail("GET of an emitted href does not reach the item it described", href=href, status=st,
+                                   etag_listed=etag, etag_got=h.get("ETag"))
+                    for name, uid in uids.items():
+                        if ("UID:%s\r\n" % uid).encode() in b.replace(b"\r\n", b"\n").replace(b"\n", b"\r\n"):
+                            reached.add(name)
+                            etag_on_disk[name] = (href, etag)
+                    st, h, b = fr.send("REPORT", curl, data=X.multiget_body([href], kind))
+                    rs = X.response_status_map(b) if st == 207 else []
+                    if st != 207 or len(rs) != 1 or rs[0][0] != href or rs[0][1] != 200:
+                        raise Fail("multiget of an emitted href does not return the item it described", href=href, status=st, responses=rs[:3])
+                    # absolute form, as clients that resolve hrefs against the base URL send it
+                    st, h, b = fr.send("REPORT", curl, data=X.multiget_body(["http://%s%s" % (host_hdr, href)], kind))
+                    rs = X.response_status_map(b) if st == 207 else []
+                    if st != 207 or len(rs) != 1 or rs[0][0] != href or rs[0][1] != 200:
+                        raise Fail("multiget of an emitted href (absolute URL) does not return the item it described", href=href,
+                                   status=st, responses=rs[:3])
+                if reached != set(sc["names"]):
+                    raise Fail("emitted hrefs do not reach every stored item", missing=sorted(set(sc["names"]) - reached))
+            except X.LeftMount as e:
+                fails.append(Fail("an emitted href does not lie below the mount prefix", href=str(e)))
+            except Fail as f:
+                fails.append(f)
+            try:
+                # ---- collection / principal hrefs: PROPFIND depth 0 must answer for the same href
+                for href in sorted(coll_hrefs):
+                    st, h, b = fr.send("PROPFIND", href, headers={"Depth": "0"}, data=X.PROPFIND_ALL)
+                    first = X.etags_of(b)[0][0] if st == 207 else None
+                    if st != 207 or first != href:
+                        raise Fail("PROPFIND of an emitted collection/principal href does not reach the collection it described",
+                                   href=href, status=st, answered_for=first)
+            except X.LeftMount as e:
+                fails.append(Fail("an emitted href does not lie below the mount prefix", href=str(e)))
+            except Fail as f:
+                fails.append(f)
+            try:
+                # ---- MOVE: Destination spelled by the client, then Destination = an href the server emitted
+                for name, new in zip(sc["names"], sc["move_names"]):
+                    if name not in etag_on_disk:
+                        break
+                    href, etag = etag_on_disk[name]
+                    dest_url = fr.client_url(cpath + new)
+                    st = fr.send("MOVE", href, headers={"Destination": "http://%s%s" % (host_hdr, dest_url)})[0]
+                    if st != 201:
+                        raise Fail("MOVE to an encoded Destination", source=href, destination=dest_url, status=st)
+                    listing = sorted(x for x in os.listdir(os.path.join(root, user, col)) if not x.startswith(".Radicale"))
+                    if not os.path.isfile(os.path.join(root, user, col, new)) or os.path.exists(os.path.join(root, user, col, name)):
+                        raise Fail("MOVE by an encoded Destination reached another name than the decoded request path would",
+                                   destination=dest_url, expected_name=new, listing=listing)
+                    st, h, b = fr.send("GET", dest_url)
+                    if st != 200 or ("UID:%s" % uids[name]).encode() not in b:
+                        raise Fail("GET of the URL used as Destination does not return the moved item", url=dest_url, status=st)
+                    # back, using the href the server handed out for the original name
+                    st = fr.send("MOVE", dest_url, headers={"Destination": "http://%s%s" % (host_hdr, href)})[0]
+                    if st != 201 or not os.path.isfile(os.path.join(root, user, col, name)):
+                        raise Fail("MOVE with an emitted href as Destination does not reach the name the href described",
+                                   destination=href, expected_name=name, status=st,
+                                   listing=sorted(x for x in os.listdir(os.path.join(root, user, col)) if not x.startswith(".Radicale")))
+            except X.LeftMount as e:
+                fails.append(Fail("an emitted href does not lie below the mount prefix", href=str(e)))
+            except Fail as f:
+                fails.append(f)
+            try:
+                # ---- Location headers
+                for start in ["/", "/.well-known/caldav", "/.well-known/carddav", "//.web", "/.web"]:
+                    url = fr.client_url(start) if start != "//.web" else fr.client_url("/") + "/.web"
+                    hops = 0
+                    while True:
+                        try:
+                            st, h, b = fr.send("GET", url)
+                        except X.LeftMount:
+                            raise Fail("Location leaves the mount prefix", start=start, location=url)
+                        if st in (301, 302):
+                            loc = h.get("Location", "")
+                            stats["hrefs"] += 1
+                            if not X.is_wf_quoted(loc):
+                                raise Fail("Location header is not a percent-encoded URL path", requested=url, location=loc)
+                            url = loc
+                            hops += 1
+                            if hops > 5:
+                                raise Fail("redirect loop", start=start, location=loc)
+                            continue
+                        if st != 200:
+                            raise Fail("following the Location header does not reach a page", start=start, url=url, status=st)
+                        break
+            except X.LeftMount as e:
+                fails.append(Fail("an emitted href does not lie below the mount prefix", href=str(e)))
+            except Fail as f:
+                fails.append(f)
+        except X.LeftMount as e:
+            return [Fail("an emitted href does not lie below the mount prefix", href=str(e))], stats, fr.log[-6:]
+        except Fail as f:
+            return [f], stats, fr.log[-6:]
+        stats["requests"] = len(fr.log)
+        return fails, stats, fr.log[-6:] if fails else []
+
+
+def gen_scenario(rng, mode=None, prefix=None):
+    mode = mode or rng.choice(X.MODES)
+    if prefix is None:
+        prefix = "" if mode == "none" else X.rand_prefix(rng) or "/radicale"
+    while True:
+        user = X.rand_component(rng, 5)
+        if ":" in user or not X.latin1(user) and False:
+            continue
+        if ":" in user:
+            continue
+        break
+    names = []
+    kind = rng.choice(["C", "C", "CR"])
+    ext = ".ics" if kind == "C" else ".vcf"
+    while len(names) < rng.choice([2, 3, 4]):
+        n = X.rand_component(rng, 8)
+        if n not in names and n.lower() not in [m.lower() for m in names]:
+            names.append(n if rng.random() < 0.5 else n + ext)
+    moves = []
+    while len(moves) < 2:
+        n = X.rand_component(rng, 8)
+        if n not in names and n not in moves:
+            moves.append(n)
+    return dict(mode=mode, prefix=prefix, user=user, col=X.rand_component(rng, 6), kind=kind, names=names, move_names=moves)
+
+
+FIXED_SCENARIOS = [
+    # the witnesses of the repaired defects, kept as regression cases
+    dict(mode="none", prefix="", user="u", col="cal", kind="C", names=["a.ics", "b c.ics"], move_names=["b%20c.ics", "d e.ics"]),      # F5
+    dict(mode="proxy-strip", prefix="/my app", user="u", col="cal", kind="C", names=["a.ics"], move_names=["x.ics"]),                   # F11
+    dict(mode="proxy-strip-xff", prefix="/radicale", user="radicale2", col="cal", kind="C", names=["a.ics"], move_names=["x.ics"]),     # F12
+    dict(mode="none", prefix="", user="u", col="cal", kind="C", names=["a;b.ics", "c.ics"], move_names=["c;d.ics", "e;f;g"]),           # F13
+    dict(mode="proxy-full-xff", prefix="/a/b", user="u;x", col="c?d", kind="CR", names=["#1.vcf", "é ü.vcf"], move_names=["%41.vcf", "z"]),
+    dict(mode="config-full-xff", prefix="/é/my app", user="u", col="ca l", kind="C", names=["\U0001F600.ics", "100%.ics"], move_names=["a&b=c", "q'\"<>"]),
+    dict(mode="wsgi", prefix="/dav;v=1", user="a@b", col="x+y", kind="C", names=["p q+r.ics", "\\back.ics"], move_names=["::", "[x]"]),
+]
+AMBIGUOUS_SCENARIO = dict(mode="proxy-strip-xff", prefix="/radicale", user="radicale", col="cal", kind="C", names=["a.ics"],
+                          move_names=["x.ics"])
+
+
+def sc_nontrivial(sc):
+    text = sc["prefix"] + sc["user"] + sc["col"] + "".join(sc["names"]) + "".join(sc["move_names"])
+    return urllib.parse.quote(text) != text
+
+
+def monitors(ctx):
+    rng = ctx.rng
+    scs = list(FIXED_SCENARIOS)
+    for mode in X.MODES:
+        scs.append(gen_scenario(rng, mode))
+    while len(scs) < ctx.n(45, 1500):
+        scs.append(gen_scenario(rng))
+    total = dict(hrefs=0, requests=0)
+    seen_steps = set()
+    for sc in scs:
+        fails, stats, log = run_scenario(sc)
+        ctx.case(("scenario", json.dumps(sc, sort_keys=True)), nontrivial=sc_nontrivial(sc))
+        ctx.count("scenario:" + sc["mode"])
+        for k in total:
+            total[k] += stats.get(k, 0)
+        for fail in fails:
+            ctx.count("monitor-failure:" + fail.step)
+            if fail.step in seen_steps:
+                continue                      # one replay per kind of failure
+            seen_steps.add(fail.step)
+            ctx.violation("C18 monitor: %s (mode %s, prefix %r)" % (fail.step, sc["mode"], sc["prefix"]),
+                          dict(scenario=sc, step=fail.step, detail=fail.info, last_requests=log,
+                               note="replay: ./check C18 --replay <this file> re-runs the scenario against VERIF_REPO"))
+    ctx.extra["monitor_hrefs_checked"] = total["hrefs"]
+    ctx.extra["monitor_requests"] = total["requests"]
+    ctx.samples.append(dict(scenario=scs[len(FIXED_SCENARIOS)]))
+    # the recorded, not repaired, limitation
+    fails, stats, log = run_scenario(AMBIGUOUS_SCENARIO)
+    ctx.count("scenario:known-ambiguous")
+    if fails:
+        fail = fails[0]
+        ctx.violation("C18 monitor: %s" % fail.step, dict(scenario=AMBIGUOUS_SCENARIO, step=fail.step, detail=fail.info, last_requests=log),
+                      signature=KNOWN_AMBIGUOUS)
+    else:
+        ctx.notes.append("the known ambiguity (stripping proxy + collection named like the script name) no longer reproduces")
+
+
+def replay(ctx, path):
+    data = json.load(open(path))
+    sc = data.get("replay", {}).get("scenario")
+    if not sc:
+        print(json.dumps(data, indent=1)[:4000])
+        return 0
+    fails, stats, log = run_scenario(sc)
+    print("scenario:", json.dumps(sc, ensure_ascii=False))
+    if not fails:
+        print("scenario passes against", core.REPO)
+        return 0
+    for fail in fails:
+        print("FAILS at step: %s\n detail: %r" % (fail.step, fail.info))
+    print("last requests: %r" % (log,))
+    return 1
+
+
 def run(ctx):
     ctx.rule = ("string suites: exhaustive strings up to length L over {/ % 4 1 a F ? # ; : space e-acute z}, all single bytes, all "
                 "pairs and sampled 3-4 byte sequences over the UTF-8 boundary bytes, random URL-ish strings and names over the "
@@ -504,9 +788,17 @@ def run(ctx):
         "bracketed (IPv6) and non-ASCII netlocs in Destination / href are outside the model (ipaddress, NFKC checks of urlsplit)",
     ]
     ctx.prove()
+    ctx.log("proofs built:", ctx.build_ok)
     strs, names = stdlib_suites(ctx)
+    ctx.log("stdlib suites done")
     pathinfo_suite(ctx, strs)
     make_href_suite(ctx)
+    ctx.log("pathinfo / make_href done")
     front_suites(ctx)
+    ctx.log("front suites done")
     multiget_suite(ctx)
+    ctx.log("multiget done")
     destination_suite(ctx)
+    ctx.log("destination done")
+    monitors(ctx)
+    ctx.log("monitors done")
